@@ -1036,7 +1036,8 @@ fn expect_match(
     if a.quote != b.quote_denom {
         failing.push("denom: quote denominations differ".into());
     }
-    if a.class == AskClass::Pending {
+    // an ask in the contract's own base denomination is plain whatever class was recorded
+    if a.class == AskClass::Pending && a.base != cfg.base {
         failing.push("state: ask is pending approval".into());
         labels.push("match-pending");
     }
